@@ -34,3 +34,30 @@ Print Assumptions C20_synthesised_names_are_reserved.
 (** Non-vacuity: the initial environment of the correspondence harness meets the hypotheses. *)
 Example C20_init_wf : wf (mkEnv [[115; 104]] 0 0 [([73; 70; 83], [32; 9; 10])]).
 Proof. unfold wf, keys_distinct; cbn. constructor; [intros []|constructor]. Qed.
+
+(** Expand never modifies Args, Opts (nor the pid oracle): whatever the word, the mode, the
+    pathname-expansion oracle and the environment, the environment that comes back -- with the
+    fields or with an error -- has the same Args and Opts.  (Expand works on the model of
+    interp/expand.go, compared with ExecEnv.Expand on every run: store, Args and Opts after each
+    call of the histories.) *)
+From GoSh Require Import Arith.ASyntax Arith.AEval Arith.AProofs Expand.Expand Expand.Frame.
+Theorem C20_expand_keeps_args_opts :
+  forall users glob e w m,
+    match expand_top users glob e w m with
+    | Ok (e', _) | Err (e', _) => args e' = args e /\ opts e' = opts e /\ pid e' = pid e
+    | _ => True
+    end.
+Proof. intros users glob e w m. pose proof (expand_top_keeps users glob e w m) as H. destruct (expand_top users glob e w m) as [[e' r]|[e' x]| |]; exact H. Qed.
+Print Assumptions C20_expand_keeps_args_opts.
+
+(** Eval changes the store only at the names under = op= ++ -- of the expression that was parsed,
+    and never Args or Opts. *)
+Theorem C20_eval_changes_only_assigned_names :
+  forall a e, same_except (mods a) e (fst (eval_i e a)).
+Proof. exact eval_i_frame. Qed.
+Print Assumptions C20_eval_changes_only_assigned_names.
+
+Theorem C20_eval_keeps_args_opts :
+  forall e src, args (fst (eval_model e src)) = args e /\ opts (fst (eval_model e src)) = opts e /\ pid (fst (eval_model e src)) = pid e.
+Proof. exact eval_model_keeps. Qed.
+Print Assumptions C20_eval_keeps_args_opts.
